@@ -44,6 +44,7 @@ pub fn stages(tier: Tier, mode: &str) -> Vec<StageDef> {
         s("token_soup", 14_000, 300_000, 8_000, 1_200, 2),
         s("mutated", 10_000, 200_000, 6_000, 1_000, 1),
         s("inject", 24_000, 240_000, 8_000, 1_200, 0),
+        s("large_docs", 500, 8_000, 300, 60, 0),
         s("size", SIZE_SHAPES as u64, SIZE_SHAPES as u64 * 12, SIZE_SHAPES as u64, SIZE_SHAPES as u64, 0),
     ]
 }
@@ -150,7 +151,7 @@ fn inject_case(idx: u64, seed: u64) -> Option<(String, String)> {
 }
 
 /// The files of one case: (label, [(id, content)]).
-pub fn make_case(seed: u64, tier: Tier, stage: &str, idx: u64) -> Option<(String, Vec<(String, String)>)> {
+pub fn make_case(seed: u64, tier: Tier, mode: &str, stage: &str, idx: u64) -> Option<(String, Vec<(String, String)>)> {
     let mut rng = Rng::for_case(seed, stage, idx);
     let ids = ["a", "b", "c", "d", "e", "f", "a", "b"];
     let multi = |rng: &mut Rng, f: &mut dyn FnMut(&mut Rng) -> String| -> Vec<(String, String)> {
@@ -190,11 +191,30 @@ pub fn make_case(seed: u64, tier: Tier, stage: &str, idx: u64) -> Option<(String
                 t
             }),
         )),
+        "large_docs" => {
+            // generated documents with many members in wild layouts (multi-byte comments and doc comments everywhere), 4-30 KiB
+            let cfg = GenCfg { max_members: 30 + rng.below(if mode == "native" { 120 } else { 30 }), max_args: 4, max_type_depth: 3, ann_num: 1, ann_den: 3, ..GenCfg::default() };
+            let mut d = gen::doc(&mut rng, &cfg);
+            let mut guard = 0;
+            while d.item.members.len() < 25 && guard < 20 {
+                d = gen::doc(&mut rng, &cfg);
+                guard += 1;
+            }
+            let r = gen::render(&d);
+            let style = *rng.pick(&[LayoutStyle::Wild, LayoutStyle::Wild, LayoutStyle::Crlf, LayoutStyle::Plain]);
+            let mut text = gen::layout(&r.toks, &mut rng, style, &r.forced).text;
+            if rng.chance(1, 3) {
+                text = mutate::char_splice(&mut rng, &text);
+            }
+            Some(("large_docs".into(), vec![("a".to_string(), text)]))
+        }
         "inject" => inject_case(idx, seed).map(|(l, t)| (l, vec![("a".to_string(), t)])),
         "size" => {
-            let (max_b, quad_b) = match tier {
-                Tier::Quick => (65_536, 20_000),
-                Tier::Thorough => (65_536, 65_536),
+            // sanitizer stages: inputs <= 8 KiB (the library is quadratic in file size)
+            let (max_b, quad_b) = match (mode, tier) {
+                ("native", Tier::Quick) => (65_536, 20_000),
+                ("native", Tier::Thorough) => (65_536, 65_536),
+                _ => (8_192, 8_192),
             };
             let (l, t) = size_case(idx, &mut rng, max_b, quad_b);
             Some((format!("size:{l}"), vec![("a".to_string(), t)]))
@@ -253,7 +273,7 @@ pub fn worker_main(args: &[String]) -> i32 {
     let from_idx: u64 = get("--from-idx").and_then(|s| s.parse().ok()).unwrap_or(0);
     let out = std::io::stdout();
     let run_one = |stage: &str, idx: u64| {
-        if let Some((label, files)) = make_case(seed, tier, stage, idx) {
+        if let Some((label, files)) = make_case(seed, tier, &mode, stage, idx) {
             let bytes: usize = files.iter().map(|f| f.1.len()).sum();
             {
                 let mut o = out.lock();
@@ -487,7 +507,7 @@ fn drive(ctx: &Ctx, exe: &str, wrapper: &[String], mode: &str, workers: u64, wal
                         break;
                     };
                     st.case(hash_str(&format!("{stage}/{idx}")), true);
-                    let files = make_case(ctx.seed, ctx.tier, &stage, idx).map(|c| c.1).unwrap_or_default();
+                    let files = make_case(ctx.seed, ctx.tier, mode, &stage, idx).map(|c| c.1).unwrap_or_default();
                     let detail = |extra: &str| {
                         json!({"mode": mode, "stage": stage, "case": idx, "how": extra,
                                "files": files.iter().map(|f| json!({"id": f.0, "bytes": f.1.len(), "content": if f.1.len() <= 4096 { f.1.clone() } else { format!("{}… ({} bytes, regenerate with --replay)", f.1.chars().take(1024).collect::<String>(), f.1.len()) }})).collect::<Vec<_>>() })
@@ -582,7 +602,7 @@ fn record_status(ctx: &Ctx, mode: &str, stage: &str, idx: u64, status: &str, st:
         }));
         st.inc(&format!("files_per_case.{files}"));
         if st.want_sample() && diags >= 2 && stage != "size" {
-            if let Some((label, files)) = make_case(ctx.seed, ctx.tier, stage, idx) {
+            if let Some((label, files)) = make_case(ctx.seed, ctx.tier, mode, stage, idx) {
                 if files.iter().all(|f| f.1.len() < 400) {
                     st.sample(json!({"stage": stage, "case": idx, "label": label, "files": files.iter().map(|f| json!({"id": f.0, "content": f.1})).collect::<Vec<_>>(), "status": status}));
                 }
@@ -590,7 +610,7 @@ fn record_status(ctx: &Ctx, mode: &str, stage: &str, idx: u64, status: &str, st:
         }
         return;
     }
-    let files = make_case(ctx.seed, ctx.tier, stage, idx).map(|c| c.1).unwrap_or_default();
+    let files = make_case(ctx.seed, ctx.tier, mode, stage, idx).map(|c| c.1).unwrap_or_default();
     let detail = json!({"mode": mode, "stage": stage, "case": idx, "status": status,
         "files": files.iter().map(|f| json!({"id": f.0, "content": if f.1.len() <= 8192 { f.1.clone() } else { format!("({} bytes; regenerate with --replay)", f.1.len()) }})).collect::<Vec<_>>()});
     let (sig, msg) = if status.starts_with("PANIC") {
@@ -627,13 +647,13 @@ pub fn run(ctx: &Ctx) -> i32 {
     if let Some((stage, idx)) = &ctx.replay {
         // stage is "<mode>:<stage>"
         let (_mode, stg) = stage.split_once(':').unwrap_or(("native", stage.as_str()));
-        match make_case(ctx.seed, ctx.tier, stg, *idx) {
+        match make_case(ctx.seed, ctx.tier, _mode, stg, *idx) {
             Some((label, files)) => {
                 println!("replaying {stg} case {idx} ({label}), {} file(s)", files.len());
                 for f in &files {
                     println!("--- id {} ({} bytes)\n{}", f.0, f.1.len(), f.1.chars().take(2000).collect::<String>());
                 }
-                match run_single(&exe, &[], ctx.seed, ctx.tier, "native", stg, *idx, Duration::from_secs(1200)) {
+                match run_single(&exe, &[], ctx.seed, ctx.tier, _mode, stg, *idx, Duration::from_secs(1200)) {
                     Ok(l) => {
                         println!("{l}");
                         let status = l.splitn(4, ' ').nth(3).unwrap_or("").to_string();
@@ -649,6 +669,13 @@ pub fn run(ctx: &Ctx) -> i32 {
         }
     } else {
         let workers = ctx.threads as u64;
+        // Miri is single-threaded and very slow (~3 min per parsed file): start it first, collect it last
+        let miri_handle = if ctx.tier == Tier::Thorough {
+            let (seed, tier) = (ctx.seed, ctx.tier);
+            Some(std::thread::spawn(move || run_miri(seed, tier)))
+        } else {
+            None
+        };
         let o = drive(ctx, &exe, &[], "native", workers, Duration::from_secs(ctx.tier.pick(600, 3600)));
         stats.merge(o.stats);
         tools.insert("native".into(), "ran".into());
@@ -676,7 +703,7 @@ pub fn run(ctx: &Ctx) -> i32 {
                 tools.insert("valgrind".into(), "inconclusive: valgrind not available".into());
             }
             // Miri micro-slice (best effort)
-            match run_miri(ctx) {
+            match miri_handle.map(|h| h.join().unwrap_or_else(|_| Err((false, "miri thread panicked".to_string())))).unwrap_or_else(|| Err((false, "not started".to_string()))) {
                 Ok((n, msg)) => {
                     stats.add("miri.cases", n);
                     tools.insert("miri".into(), msg);
@@ -713,12 +740,12 @@ pub fn run(ctx: &Ctx) -> i32 {
     )
 }
 
-fn run_miri(ctx: &Ctx) -> Result<(u64, String), (bool, String)> {
+fn run_miri(seed: u64, tier: Tier) -> Result<(u64, String), (bool, String)> {
     // one `cargo miri run` executing the worker in miri mode (a handful of tiny inputs)
     let cmd = format!(
         "cd /verif/harness && CARGO_NET_OFFLINE=true MIRIFLAGS='-Zmiri-disable-isolation' timeout 3000 cargo +nightly miri run --offline --target-dir /verif/target/miri -- C01-worker --seed {} --tier {} --mode miri --shard 0 --of 1 2>&1 | tail -40",
-        ctx.seed,
-        ctx.tier.name()
+        seed,
+        tier.name()
     );
     let out = Command::new("bash").arg("-c").arg(&cmd).output().map_err(|e| (false, e.to_string()))?;
     let txt = String::from_utf8_lossy(&out.stdout).to_string();
